@@ -277,6 +277,20 @@ class Engine(
                     # No Deduplication, so we can just add the Projection to
                     # the existing Select and reapply it.
                     match select.skip_to:
+                        case BinaryOperationRelation(operation=Chain()) if not (
+                            select.sort.columns_required <= operation.columns
+                        ):
+                            # The Select's Sort needs a column this Projection
+                            # drops, so the Projection cannot move inside the
+                            # Chain; nest the UNION in a subquery instead and
+                            # keep the Sort and Slice in the outer query.
+                            subquery = select.reapply_skip(sort=None, slice=None)
+                            return Select.apply_skip(
+                                subquery,
+                                projection=operation,
+                                sort=select.sort,
+                                slice=select.slice,
+                            )
                         case BinaryOperationRelation(operation=Chain() as chain, lhs=lhs, rhs=rhs):
                             # ... unless the skip_to relation is a Chain; we
                             # want to move the Projection inside the Chain, to
